@@ -24,6 +24,7 @@ import (
 	"testing/synctest"
 	"time"
 
+	api "github.com/osrg/gobgp/v4/api"
 	"github.com/osrg/gobgp/v4/internal/pkg/table"
 	"github.com/osrg/gobgp/v4/internal/verif/vr"
 	"github.com/osrg/gobgp/v4/pkg/apiutil"
@@ -31,7 +32,10 @@ import (
 	"github.com/osrg/gobgp/v4/pkg/packet/bgp"
 )
 
-const c09fLocalAS = 65000
+const (
+	c09fLocalAS  = 65000 // the daemon's AS (its member-AS in the confederation world)
+	c09fConfedID = 100   // confederation identifier in the confederation world
+)
 
 const (
 	c09fKLocal = iota
@@ -40,9 +44,10 @@ const (
 	c09fKClient
 	c09fKRS
 	c09fKEBGPReplace // eBGP peer with replace-peer-as
+	c09fKConfed      // peer in another member-AS of the confederation
 )
 
-var c09fKindNames = []string{"local", "ebgp", "ibgp-nonclient", "rr-client", "rs-client", "ebgp-replace-peer-as"}
+var c09fKindNames = []string{"local", "ebgp", "ibgp-nonclient", "rr-client", "rs-client", "ebgp-replace-peer-as", "confed-member"}
 
 var (
 	c09fRouterID  = netip.MustParseAddr("10.0.0.254")
@@ -59,63 +64,115 @@ type c09fPeer struct {
 	IP   byte
 }
 
-// index 0 is the local source (API); 1.. are bots in this order
-var c09fPeers = []c09fPeer{
-	{"local", c09fKLocal, 0, 0},
-	{"e1", c09fKEBGP, 65001, 1},
-	{"e2", c09fKEBGP, 65002, 2},
-	{"i1", c09fKIBGP, c09fLocalAS, 3},
-	{"i2", c09fKIBGP, c09fLocalAS, 4},
-	{"c1", c09fKClient, c09fLocalAS, 5},
-	{"c2", c09fKClient, c09fLocalAS, 6},
-	{"s1", c09fKRS, 65011, 7},
-	{"s2", c09fKRS, 65012, 8},
-	{"e3", c09fKEBGPReplace, 65003, 9},
-}
-
 type c09fShape struct {
 	Name     string
-	Seq      []uint32 // appended to the source's own AS (eBGP-type sources) in one AS_SEQUENCE
+	CSeq     []uint32 // AS_CONFED_SEQUENCE members (after the source's member-AS when the source is a confederation member)
+	Seq      []uint32 // AS_SEQUENCE members (after the source's own AS when the source is an eBGP-type peer)
 	Set      []uint32 // optional trailing AS_SET
 	Thorough bool
 }
 
-var c09fShapes = []c09fShape{
-	{"plain", []uint32{65009}, nil, false},
-	{"has-e2-as", []uint32{65002}, nil, false},
-	{"has-e1-as", []uint32{65009, 65001}, nil, false},
-	{"has-e2-as-in-set", []uint32{65009}, []uint32{65002, 65008}, false},
-	{"own-as-1x", []uint32{65009, c09fLocalAS}, nil, false},
-	{"own-as-2x", []uint32{c09fLocalAS, 65009, c09fLocalAS}, nil, false},
-	{"has-e3-as", []uint32{65003}, nil, false},
-	{"has-s2-as", []uint32{65012}, nil, false},
-	{"own-as-3x", []uint32{c09fLocalAS, c09fLocalAS, c09fLocalAS}, nil, true},
-	{"own-as-in-set", []uint32{65009}, []uint32{c09fLocalAS, 65008}, true},
-	{"has-e1-e2-as", []uint32{65002, 65001}, nil, true},
-	{"no-suffix", nil, nil, true},
+type c09fWorld struct {
+	Name   string
+	Confed bool
+	Peers  []c09fPeer // index 0 is the local source (API); 1.. are bots in this order
+	Shapes []c09fShape
+}
+
+var c09fWorlds = []c09fWorld{
+	{
+		Name: "plain",
+		Peers: []c09fPeer{
+			{"local", c09fKLocal, 0, 0},
+			{"e1", c09fKEBGP, 65001, 1},
+			{"e2", c09fKEBGP, 65002, 2},
+			{"i1", c09fKIBGP, c09fLocalAS, 3},
+			{"i2", c09fKIBGP, c09fLocalAS, 4},
+			{"c1", c09fKClient, c09fLocalAS, 5},
+			{"c2", c09fKClient, c09fLocalAS, 6},
+			{"s1", c09fKRS, 65011, 7},
+			{"s2", c09fKRS, 65012, 8},
+			{"e3", c09fKEBGPReplace, 65003, 9},
+		},
+		Shapes: []c09fShape{
+			{"plain", nil, []uint32{65009}, nil, false},
+			{"has-e2-as", nil, []uint32{65002}, nil, false},
+			{"has-e1-as", nil, []uint32{65009, 65001}, nil, false},
+			{"has-e2-as-in-set", nil, []uint32{65009}, []uint32{65002, 65008}, false},
+			{"own-as-1x", nil, []uint32{65009, c09fLocalAS}, nil, false},
+			{"own-as-2x", nil, []uint32{c09fLocalAS, 65009, c09fLocalAS}, nil, false},
+			{"has-e3-as", nil, []uint32{65003}, nil, false},
+			{"has-s2-as", nil, []uint32{65012}, nil, false},
+			{"own-as-3x", nil, []uint32{c09fLocalAS, c09fLocalAS, c09fLocalAS}, nil, true},
+			{"own-as-in-set", nil, []uint32{65009}, []uint32{c09fLocalAS, 65008}, true},
+			{"has-e1-e2-as", nil, []uint32{65002, 65001}, nil, true},
+			{"no-suffix", nil, nil, nil, true},
+		},
+	},
+	{
+		Name: "confed", Confed: true,
+		Peers: []c09fPeer{
+			{"local", c09fKLocal, 0, 0},
+			{"e1", c09fKEBGP, 65001, 1},
+			{"e2", c09fKEBGP, 65002, 2},
+			{"m1", c09fKConfed, 65100, 3},
+			{"m2", c09fKConfed, 65101, 4},
+			{"i1", c09fKIBGP, c09fLocalAS, 5},
+			{"c1", c09fKClient, c09fLocalAS, 6},
+		},
+		Shapes: []c09fShape{
+			{"plain", nil, []uint32{65009}, nil, false},
+			{"has-confed-id", nil, []uint32{65009, c09fConfedID}, nil, false},
+			{"own-member-as-in-seq", nil, []uint32{65009, c09fLocalAS}, nil, false},
+			{"own-member-as-in-confed-seq", []uint32{c09fLocalAS}, []uint32{65009}, nil, false},
+			{"has-m2-as-in-confed-seq", []uint32{65101}, []uint32{65009}, nil, false},
+			{"has-e2-as", nil, []uint32{65002}, nil, false},
+			{"has-m2-as-in-seq", nil, []uint32{65009, 65101}, nil, false},
+			{"no-suffix", nil, nil, nil, false},
+			{"confed-id-in-confed-seq", []uint32{c09fConfedID}, []uint32{65009}, nil, true},
+			{"has-e2-as-in-set", nil, []uint32{65009}, []uint32{65002, 65008}, true},
+		},
+	},
 }
 
 type c09fCase struct {
+	World int `json:"world"`        // index in c09fWorlds
 	Allow int `json:"allow_own_as"` // allow-own-as on every neighbour
-	Src   int `json:"src"`          // index in c09fPeers
+	Src   int `json:"src"`          // index in the world's peers
 	Shape int `json:"shape"`
 	Orig  int `json:"orig"` // ORIGINATOR_ID 0 absent 1 = local router-id 2 other
 	CL    int `json:"cl"`   // CLUSTER_LIST 0 absent 1 without local cluster-id 2 with local cluster-id
 }
 
+func (c c09fCase) world() *c09fWorld { return &c09fWorlds[c.World] }
+func (c c09fCase) src() c09fPeer     { return c.world().Peers[c.Src] }
+
 func (c c09fCase) String() string {
-	return fmt.Sprintf("{allow-own-as=%d src=%s aspath=%s originator=%s cluster-list=%s}", c.Allow, c09fPeers[c.Src].Name, c09fShapes[c.Shape].Name,
+	return fmt.Sprintf("{world=%s allow-own-as=%d src=%s aspath=%s originator=%s cluster-list=%s}", c.world().Name, c.Allow, c.src().Name, c.world().Shapes[c.Shape].Name,
 		[]string{"absent", "local-router-id", "other"}[c.Orig], []string{"absent", "without-local-cluster-id", "with-local-cluster-id"}[c.CL])
 }
 
-// the AS numbers of the announced route, flattened (sequence members then set members)
-func (c c09fCase) asns() (seq, set []uint32) {
-	p := c09fPeers[c.Src]
-	if p.Kind == c09fKEBGP || p.Kind == c09fKRS || p.Kind == c09fKEBGPReplace {
+func c09fEBGPType(k int) bool { return k == c09fKEBGP || k == c09fKRS || k == c09fKEBGPReplace }
+
+// valid: confederation segments can only come from confederation members and iBGP peers
+func (c c09fCase) valid() bool {
+	sh := c.world().Shapes[c.Shape]
+	k := c.src().Kind
+	return len(sh.CSeq) == 0 || k == c09fKConfed || k == c09fKIBGP || k == c09fKClient
+}
+
+// the AS numbers of the announced route by segment: AS_CONFED_SEQUENCE, AS_SEQUENCE, AS_SET
+func (c c09fCase) asns() (cseq, seq, set []uint32) {
+	p, sh := c.src(), c.world().Shapes[c.Shape]
+	if p.Kind == c09fKConfed {
+		cseq = append(cseq, p.AS)
+	}
+	cseq = append(cseq, sh.CSeq...)
+	if c09fEBGPType(p.Kind) {
 		seq = append(seq, p.AS)
 	}
-	seq = append(seq, c09fShapes[c.Shape].Seq...)
-	return seq, c09fShapes[c.Shape].Set
+	seq = append(seq, sh.Seq...)
+	return cseq, seq, sh.Set
 }
 
 func c09fContains(l []uint32, a uint32) bool {
@@ -127,35 +184,20 @@ func c09fContains(l []uint32, a uint32) bool {
 	return false
 }
 
+func c09fCount(a uint32, ls ...[]uint32) int {
+	n := 0
+	for _, l := range ls {
+		for _, x := range l {
+			if x == a {
+				n++
+			}
+		}
+	}
+	return n
+}
+
 // ---------------------------------------------------------------------------------------------
 // rule table
-
-// c09fUsed: may the received route enter the decision process?
-func c09fUsed(c c09fCase) (bool, string) {
-	k := c09fPeers[c.Src].Kind
-	if k == c09fKLocal {
-		return true, "locally originated routes are not subject to the receive-side checks"
-	}
-	seq, set := c.asns()
-	n := 0
-	for _, a := range append(append([]uint32{}, seq...), set...) {
-		if a == c09fLocalAS {
-			n++
-		}
-	}
-	if n > c.Allow {
-		return false, fmt.Sprintf("received route contains the local AS %d times, allow-own-as is %d", n, c.Allow)
-	}
-	if k == c09fKIBGP || k == c09fKClient {
-		if c.Orig == 1 {
-			return false, "received route carries the local router-id as ORIGINATOR_ID"
-		}
-		if c.CL == 2 {
-			return false, "received route carries the local cluster-id in its CLUSTER_LIST"
-		}
-	}
-	return true, "no loop indication"
-}
 
 const (
 	c09fMust = iota
@@ -163,17 +205,56 @@ const (
 	c09fOpen
 )
 
+// c09fUsed: may the received route enter the decision process?
+func c09fUsed(c c09fCase) (int, string) {
+	k := c.src().Kind
+	if k == c09fKLocal {
+		return c09fMust, "locally originated routes are not subject to the receive-side checks"
+	}
+	cseq, seq, set := c.asns()
+	n := c09fCount(c09fLocalAS, cseq, seq, set)
+	if c.world().Confed {
+		// RFC 5065 4: the confederation identifier counts as the own AS
+		id := c09fCount(c09fConfedID, cseq, seq, set)
+		if c09fEBGPType(k) {
+			if id > c.Allow {
+				return c09fMustNot, fmt.Sprintf("received route contains the confederation identifier %d times, allow-own-as is %d", id, c.Allow)
+			}
+			if n > 0 {
+				// towards peers outside the confederation the router is AS 100; whether its member-AS number inside an
+				// external AS_PATH counts as "the local AS" is not said by the property
+				return c09fOpen, "member-AS number in a route from outside the confederation"
+			}
+			return c09fMust, "no loop indication"
+		}
+		n += id
+	}
+	if n > c.Allow {
+		return c09fMustNot, fmt.Sprintf("received route contains the local AS %d times, allow-own-as is %d", n, c.Allow)
+	}
+	if k == c09fKIBGP || k == c09fKClient {
+		if c.Orig == 1 {
+			return c09fMustNot, "received route carries the local router-id as ORIGINATOR_ID"
+		}
+		if c.CL == 2 {
+			return c09fMustNot, "received route carries the local cluster-id in its CLUSTER_LIST"
+		}
+	}
+	return c09fMust, "no loop indication"
+}
+
 // c09fExport: must / must not / unspecified, for a route that is used.
 func c09fExport(c c09fCase, tgt int) (int, string, string) {
-	s, t := c09fPeers[c.Src], c09fPeers[tgt]
+	s, t := c.src(), c.world().Peers[tgt]
 	if tgt == c.Src {
 		return c09fMustNot, "back-to-source", "a route is never advertised back to the router it came from"
 	}
-	seq, set := c.asns()
+	cseq, seq, set := c.asns()
 	all := append(append([]uint32{}, seq...), set...)
 	if (s.Kind == c09fKRS) != (t.Kind == c09fKRS) {
 		return c09fOpen, "rs-separation", "route-server clients and ordinary peers use separate tables (not part of the property)"
 	}
+	ownAS := c09fContains(all, c09fLocalAS) || c09fContains(cseq, c09fLocalAS)
 	switch t.Kind {
 	case c09fKRS:
 		if c09fContains(all, t.AS) {
@@ -186,21 +267,29 @@ func c09fExport(c c09fCase, tgt int) (int, string, string) {
 			return c09fMustNot, "ebgp-as-in-path", "never advertised to an eBGP peer whose AS is already in the AS_PATH"
 		}
 		return c09fMust, "ebgp", "a used route is advertised to eBGP peers"
+	case c09fKConfed:
+		if c09fContains(all, t.AS) {
+			return c09fMustNot, "confed-member-as-in-path", "never advertised to an eBGP-type peer (here: confederation member) whose AS is already in the AS_PATH"
+		}
+		if c09fContains(cseq, t.AS) {
+			return c09fOpen, "confed-member-as-in-confed-seq", "member-AS of the target inside AS_CONFED_SEQUENCE: RFC 5065 leaves loop detection to the receiver; not covered by the property"
+		}
+		return c09fMust, "confed-member", "a used route is advertised to the other member-ASes"
 	case c09fKEBGPReplace:
 		return c09fMust, "ebgp-replace-peer-as", "replace-peer-as rewrites the peer's AS, so the route is advertised"
 	case c09fKIBGP:
 		if s.Kind == c09fKIBGP {
 			return c09fMustNot, "nonclient-to-nonclient", "never from a non-client iBGP peer to another non-client iBGP peer"
 		}
-		if c09fContains(all, c09fLocalAS) {
+		if ownAS {
 			return c09fOpen, "own-as-in-path-to-ibgp", "route admitted through allow-own-as (or local route carrying the own AS) towards an iBGP peer: sender-side suppression is not covered by the property"
 		}
 		if s.Kind == c09fKClient {
 			return c09fMust, "client-to-nonclient", "a client's route is reflected to non-client iBGP peers"
 		}
-		return c09fMust, "to-ibgp", "local and eBGP routes are advertised to iBGP peers"
+		return c09fMust, "to-ibgp", "local, eBGP and confederation-external routes are advertised to iBGP peers"
 	case c09fKClient:
-		if c09fContains(all, c09fLocalAS) {
+		if ownAS {
 			return c09fOpen, "own-as-in-path-to-ibgp", "route admitted through allow-own-as (or local route carrying the own AS) towards an iBGP peer: sender-side suppression is not covered by the property"
 		}
 		if s.Kind == c09fKClient {
@@ -209,7 +298,7 @@ func c09fExport(c c09fCase, tgt int) (int, string, string) {
 		if s.Kind == c09fKIBGP {
 			return c09fMust, "nonclient-to-client", "a non-client's route is reflected to clients"
 		}
-		return c09fMust, "to-client", "local and eBGP routes are advertised to clients"
+		return c09fMust, "to-client", "local, eBGP and confederation-external routes are advertised to clients"
 	}
 	return c09fOpen, "?", "?"
 }
@@ -217,9 +306,9 @@ func c09fExport(c c09fCase, tgt int) (int, string, string) {
 // ---------------------------------------------------------------------------------------------
 // world
 
-func c09fSpecs(allow int) []simBotSpec {
+func c09fSpecs(wd *c09fWorld, allow int) []simBotSpec {
 	var out []simBotSpec
-	for _, p := range c09fPeers[1:] {
+	for _, p := range wd.Peers[1:] {
 		p := p
 		out = append(out, simBotSpec{Name: p.Name, IP: [4]byte{10, 0, 0, p.IP}, AS: p.AS, RouterID: [4]byte{1, 1, 1, p.IP},
 			Neighbor: func(n *oc.Neighbor) {
@@ -241,10 +330,13 @@ func c09fSpecs(allow int) []simBotSpec {
 const c09fPrefix = "10.77.1.0/24"
 
 func c09fAttrs(c c09fCase) []bgp.PathAttributeInterface {
-	p := c09fPeers[c.Src]
+	p := c.src()
 	attrs := []bgp.PathAttributeInterface{bgp.NewPathAttributeOrigin(0)}
-	seq, set := c.asns()
+	cseq, seq, set := c.asns()
 	var segs []bgp.AsPathParamInterface
+	if len(cseq) > 0 {
+		segs = append(segs, bgp.NewAs4PathParam(bgp.BGP_ASPATH_ATTR_TYPE_CONFED_SEQ, append([]uint32{}, cseq...)))
+	}
 	if len(seq) > 0 {
 		segs = append(segs, bgp.NewAs4PathParam(bgp.BGP_ASPATH_ATTR_TYPE_SEQ, append([]uint32{}, seq...)))
 	}
@@ -258,7 +350,7 @@ func c09fAttrs(c c09fCase) []bgp.PathAttributeInterface {
 	}
 	nh, _ := bgp.NewPathAttributeNextHop(nhIP)
 	attrs = append(attrs, nh, bgp.NewPathAttributeMultiExitDisc(77))
-	if p.Kind == c09fKIBGP || p.Kind == c09fKClient {
+	if p.Kind == c09fKIBGP || p.Kind == c09fKClient || p.Kind == c09fKConfed {
 		attrs = append(attrs, bgp.NewPathAttributeLocalPref(150))
 	}
 	switch c.Orig {
@@ -335,8 +427,20 @@ func c09fRun(t *testing.T, c c09fCase) (o c09fObs) {
 	o.Sent = map[int]c09fSent{}
 	o.Direct = map[int]string{}
 	o.Altered = map[int]string{}
+	wd := c.world()
 	synctest.Test(t, func(t *testing.T) {
 		w := &simWorld{t: t}
+		if wd.Confed {
+			var members []uint32
+			for _, p := range wd.Peers {
+				if p.Kind == c09fKConfed {
+					members = append(members, p.AS)
+				}
+			}
+			w.global = func(g *api.Global) {
+				g.Confederation = &api.Confederation{Enabled: true, Identifier: c09fConfedID, MemberAsList: members}
+			}
+		}
 		defer func() {
 			if r := recover(); r != nil {
 				o.Panic = fmt.Sprintf("%v\n%s", r, debug.Stack())
@@ -353,7 +457,7 @@ func c09fRun(t *testing.T, c c09fCase) (o c09fObs) {
 			}()
 		}()
 		w.start()
-		for _, sp := range c09fSpecs(c.Allow) {
+		for _, sp := range c09fSpecs(wd, c.Allow) {
 			w.addBot(sp)
 		}
 		w.advance(time.Second)
@@ -405,7 +509,7 @@ func c09fRun(t *testing.T, c c09fCase) (o c09fObs) {
 		}
 		// was it used
 		var stored *table.Path
-		srcRS := c09fPeers[c.Src].Kind == c09fKRS
+		srcRS := c.src().Kind == c09fKRS
 		rib := w.s.globalRib
 		if srcRS {
 			rib = w.s.rsRib
@@ -464,21 +568,39 @@ func c09fRun(t *testing.T, c c09fCase) (o c09fObs) {
 // ---------------------------------------------------------------------------------------------
 // judging one case
 
-func c09fFlatPath(attrs []bgp.PathAttributeInterface) (seq []uint32, set []uint32, segs int, ok bool) {
+type c09fWirePath struct {
+	cseq, seq, set []uint32
+	other          int // segments of other types (AS_CONFED_SET)
+	ok             bool
+}
+
+func c09fSplitPath(attrs []bgp.PathAttributeInterface) (w c09fWirePath) {
 	for _, a := range attrs {
 		if ap, y := a.(*bgp.PathAttributeAsPath); y {
-			ok = true
+			w.ok = true
 			for _, p := range ap.Value {
-				segs++
-				if p.GetType() == bgp.BGP_ASPATH_ATTR_TYPE_SEQ {
-					seq = append(seq, p.GetAS()...)
-				} else {
-					set = append(set, p.GetAS()...)
+				switch p.GetType() {
+				case bgp.BGP_ASPATH_ATTR_TYPE_SEQ:
+					w.seq = append(w.seq, p.GetAS()...)
+				case bgp.BGP_ASPATH_ATTR_TYPE_SET:
+					w.set = append(w.set, p.GetAS()...)
+				case bgp.BGP_ASPATH_ATTR_TYPE_CONFED_SEQ:
+					w.cseq = append(w.cseq, p.GetAS()...)
+				default:
+					w.other++
 				}
 			}
 		}
 	}
 	return
+}
+
+func (w c09fWirePath) String() string {
+	return fmt.Sprintf("CONFED_SEQ%v SEQ%v SET%v", w.cseq, w.seq, w.set)
+}
+
+func (w c09fWirePath) is(cseq, seq, set []uint32) bool {
+	return w.ok && w.other == 0 && c09fU32Eq(w.cseq, cseq) && c09fU32Eq(w.seq, seq) && c09fSortedEq(w.set, set)
 }
 
 func c09fAttr(attrs []bgp.PathAttributeInterface, t bgp.BGPAttrType) bgp.PathAttributeInterface {
@@ -510,7 +632,9 @@ func c09fSortedEq(a, b []uint32) bool {
 }
 
 func c09fJudge(r *vr.Report, c c09fCase, o c09fObs) {
-	src := c09fPeers[c.Src]
+	wd := c.world()
+	src := c.src()
+	wn := "world=" + wd.Name + ":"
 	viol := func(key, format string, a ...any) {
 		r.Violationf("C09:filter:"+key, c, "%s: %s", c, fmt.Sprintf(format, a...))
 	}
@@ -522,40 +646,56 @@ func c09fJudge(r *vr.Report, c c09fCase, o c09fObs) {
 		return
 	}
 	var got []string
-	for i := 1; i < len(c09fPeers); i++ {
+	gotClient := false
+	for i := 1; i < len(wd.Peers); i++ {
 		if o.Sent[i].Announced {
-			got = append(got, c09fPeers[i].Name)
+			got = append(got, wd.Peers[i].Name)
+			if wd.Peers[i].Kind == c09fKClient {
+				gotClient = true
+			}
 		}
 	}
 	used, why := c09fUsed(c)
 	r.NT(fmt.Sprint(c))
-	if !used {
+	switch used {
+	case c09fOpen:
+		r.Outcome(fmt.Sprintf("%simport:unspecified(%s):used=%v", wn, why, o.InLocRib))
+		return
+	case c09fMustNot:
 		cls := "own-as-beyond-allow-own-as"
 		if strings.Contains(why, "ORIGINATOR_ID") {
 			cls = "originator-id-is-local-router-id"
 		} else if strings.Contains(why, "cluster-id") {
 			cls = "local-cluster-id-in-cluster-list"
+		} else if strings.Contains(why, "confederation identifier") {
+			cls = "confed-id-beyond-allow-own-as"
 		}
-		r.Outcome("import:must-not-be-used:" + cls + ":src=" + c09fKindNames[src.Kind])
+		r.Outcome(wn + "import:must-not-be-used:" + cls + ":src=" + c09fKindNames[src.Kind])
 		if o.InLocRib || len(got) > 0 {
 			viol("import:"+cls+":route-used", "%s — yet the route is in the Loc-RIB=%v (Adj-RIB-In: %s) and was advertised to %v", why, o.InLocRib, o.AdjIn, got)
+			if cls == "local-cluster-id-in-cluster-list" && gotClient {
+				// the receive side let it in; the send side is the last line of defence (RFC 4456 8)
+				viol("export:route-with-local-cluster-id-reflected-to-client", "%s — and it was even reflected to route-reflector clients: %v", why, got)
+			}
 		}
 		return
 	}
-	r.Outcome("import:usable:src=" + c09fKindNames[src.Kind])
+	r.Outcome(wn + "import:usable:src=" + c09fKindNames[src.Kind])
 	if !o.InLocRib {
 		viol("import:valid-route-not-used:src="+c09fKindNames[src.Kind], "%s — yet the route is not in the Loc-RIB (Adj-RIB-In: %s)", why, o.AdjIn)
 		return
 	}
-	if c.Allow > 0 {
-		seq, set := c.asns()
-		if c09fContains(seq, c09fLocalAS) || c09fContains(set, c09fLocalAS) {
-			r.Outcome("import:own-as-within-allow-own-as:used")
-		}
+	sentC, sentSeq, sentSet := c.asns()
+	if c.Allow > 0 && (c09fCount(c09fLocalAS, sentC, sentSeq, sentSet) > 0 || (wd.Confed && c09fCount(c09fConfedID, sentC, sentSeq, sentSet) > 0)) {
+		r.Outcome(wn + "import:own-as-within-allow-own-as:used")
 	}
-	sentSeq, sentSet := c.asns()
-	for tgt := 1; tgt < len(c09fPeers); tgt++ {
-		tp := c09fPeers[tgt]
+	// the AS this daemon shows to peers outside the confederation
+	outerAS := uint32(c09fLocalAS)
+	if wd.Confed {
+		outerAS = c09fConfedID
+	}
+	for tgt := 1; tgt < len(wd.Peers); tgt++ {
+		tp := wd.Peers[tgt]
 		mode, clause, text := c09fExport(c, tgt)
 		s := o.Sent[tgt]
 		pair := fmt.Sprintf("src=%s:tgt=%s", c09fKindNames[src.Kind], c09fKindNames[tp.Kind])
@@ -573,23 +713,23 @@ func c09fJudge(r *vr.Report, c c09fCase, o c09fObs) {
 		}
 		switch mode {
 		case c09fOpen:
-			r.Outcome(fmt.Sprintf("export:unspecified:%s:advertised=%v", clause, s.Announced))
+			r.Outcome(fmt.Sprintf("%sexport:unspecified:%s:advertised=%v", wn, clause, s.Announced))
 			continue
 		case c09fMustNot:
-			r.Outcome("export:must-not:" + clause)
+			r.Outcome(wn + "export:must-not:" + clause)
 			if s.Announced {
 				viol("export:"+clause+":"+pair, "%s — yet %s was sent the route (%s)", text, tp.Name, simAttrCanon(s.Attrs, nil))
 			}
 			continue
 		}
-		r.Outcome("export:must:" + clause)
+		r.Outcome(wn + "export:must:" + clause)
 		if !s.Announced {
 			viol("export:not-advertised:"+clause+":"+pair, "%s — yet %s was sent nothing (filterpath: %s)", text, tp.Name, d)
 			continue
 		}
 		// attribute clauses on the wire
 		tk := "tgt=" + c09fKindNames[tp.Kind]
-		seq, set, _, ok := c09fFlatPath(s.Attrs)
+		wp := c09fSplitPath(s.Attrs)
 		lp := c09fAttr(s.Attrs, bgp.BGP_ATTR_TYPE_LOCAL_PREF)
 		med := c09fAttr(s.Attrs, bgp.BGP_ATTR_TYPE_MULTI_EXIT_DISC)
 		oid := c09fAttr(s.Attrs, bgp.BGP_ATTR_TYPE_ORIGINATOR_ID)
@@ -604,22 +744,20 @@ func c09fJudge(r *vr.Report, c c09fCase, o c09fObs) {
 		}
 		switch tp.Kind {
 		case c09fKEBGP, c09fKEBGPReplace:
-			want := append([]uint32{c09fLocalAS}, sentSeq...)
-			wantSet := sentSet
+			want := append([]uint32{outerAS}, sentSeq...)
 			if tp.Kind == c09fKEBGPReplace {
-				want = append([]uint32{}, want...)
 				for i := range want {
 					if want[i] == tp.AS {
-						want[i] = c09fLocalAS
+						want[i] = outerAS
 					}
 				}
-				if c09fContains(seq, tp.AS) || c09fContains(set, tp.AS) {
-					viol("wire:replace-peer-as-not-applied:"+tk, "replace-peer-as: %s was sent an AS_PATH that still contains its AS: %v %v", tp.Name, seq, set)
+				if c09fContains(wp.seq, tp.AS) || c09fContains(wp.set, tp.AS) {
+					viol("wire:replace-peer-as-not-applied:"+tk, "replace-peer-as: %s was sent an AS_PATH that still contains its AS: %s", tp.Name, wp)
 				}
-				r.Outcome("wire:ebgp-replace-peer-as:aspath-checked")
+				r.Outcome(wn + "wire:ebgp-replace-peer-as:aspath-checked")
 			}
-			if !ok || !c09fU32Eq(seq, want) || !c09fSortedEq(set, wantSet) {
-				viol("wire:aspath:"+tk, "to eBGP the local AS is prepended exactly once: want %v %v, %s was sent %v %v", want, wantSet, tp.Name, seq, set)
+			if !wp.is(nil, want, sentSet) {
+				viol("wire:aspath:"+tk, "to eBGP the local AS is prepended exactly once and confederation segments are removed: want SEQ%v SET%v, %s was sent %s", want, sentSet, tp.Name, wp)
 			}
 			if lp != nil {
 				viol("wire:localpref-sent:"+tk, "LOCAL_PREF is removed towards eBGP (postFilterpath) — %s was sent %v", tp.Name, lp)
@@ -636,10 +774,24 @@ func c09fJudge(r *vr.Report, c c09fCase, o c09fObs) {
 			if oid != nil || cl != nil {
 				viol("wire:rr-attributes-sent:"+tk, "ORIGINATOR_ID/CLUSTER_LIST are removed towards eBGP — %s was sent %v %v", tp.Name, oid, cl)
 			}
-			r.Outcome("wire:ebgp:attrs-checked")
+			r.Outcome(wn + "wire:ebgp:attrs-checked")
+		case c09fKConfed:
+			// RFC 5065 4.1 (b): own member-AS prepended in the AS_CONFED_SEQUENCE, nothing removed; LOCAL_PREF, MED and
+			// next hop may be kept (5.3)
+			if !wp.is(append([]uint32{c09fLocalAS}, sentC...), sentSeq, sentSet) {
+				viol("wire:aspath:"+tk, "to a confederation member the member-AS is prepended once in the AS_CONFED_SEQUENCE: want CONFED_SEQ%v SEQ%v SET%v, %s was sent %s",
+					append([]uint32{c09fLocalAS}, sentC...), sentSeq, sentSet, tp.Name, wp)
+			}
+			if nh != c09fRouterID && nh != srcNH {
+				viol("wire:nexthop:"+tk, "to a confederation member the next hop is self or unchanged — %s was sent %v", tp.Name, nh)
+			}
+			if oid != nil || cl != nil {
+				viol("wire:rr-attributes-sent:"+tk, "ORIGINATOR_ID/CLUSTER_LIST are removed towards eBGP-type peers — %s was sent %v %v", tp.Name, oid, cl)
+			}
+			r.Outcome(fmt.Sprintf("%swire:confed-member:attrs-checked(localpref-sent=%v,med-sent=%v,nexthop-self=%v)", wn, lp != nil, med != nil, nh == c09fRouterID))
 		case c09fKIBGP, c09fKClient:
-			if !ok || !c09fU32Eq(seq, sentSeq) || !c09fSortedEq(set, sentSet) {
-				viol("wire:aspath:"+tk, "to iBGP the AS_PATH is unchanged: want %v %v, %s was sent %v %v", sentSeq, sentSet, tp.Name, seq, set)
+			if !wp.is(sentC, sentSeq, sentSet) {
+				viol("wire:aspath:"+tk, "to iBGP the AS_PATH is unchanged: want CONFED_SEQ%v SEQ%v SET%v, %s was sent %s", sentC, sentSeq, sentSet, tp.Name, wp)
 			}
 			if lp == nil {
 				viol("wire:localpref-missing:"+tk, "to iBGP LOCAL_PREF is present — %s was sent none", tp.Name)
@@ -656,10 +808,10 @@ func c09fJudge(r *vr.Report, c c09fCase, o c09fObs) {
 				if cl == nil || len(cl.(*bgp.PathAttributeClusterList).Value) == 0 || cl.(*bgp.PathAttributeClusterList).Value[0] != c09fClusterID {
 					viol("wire:cluster-id-not-prepended:"+tk, "to a route-reflector client the local cluster-id is prepended — %s was sent %v", tp.Name, cl)
 				}
-				r.Outcome("wire:rr-client:attrs-checked")
+				r.Outcome(wn + "wire:rr-client:attrs-checked")
 			} else {
 				// reflection towards a non-client (ORIGINATOR_ID / CLUSTER_LIST) is judged in part "attrs"
-				r.Outcome("wire:ibgp-nonclient:attrs-checked")
+				r.Outcome(wn + "wire:ibgp-nonclient:attrs-checked")
 			}
 		case c09fKRS:
 			// unchanged: exactly the attributes the source sent
@@ -667,34 +819,57 @@ func c09fJudge(r *vr.Report, c c09fCase, o c09fObs) {
 			if have := simAttrCanon(s.Attrs, nil); have != want {
 				viol("wire:rs-client-route-changed:"+tk, "to a route-server client the route is unchanged: sent by the source %s, %s was sent %s", want, tp.Name, have)
 			}
-			r.Outcome("wire:rs-client:attrs-checked")
+			r.Outcome(wn + "wire:rs-client:attrs-checked")
 		}
 	}
 }
 
 func c09fCases(thorough bool) []c09fCase {
-	allows := []int{0, 1}
-	srcs := []int{0, 1, 3, 5, 7} // local, e1, i1, c1, s1
-	if thorough {
-		allows = []int{0, 1, 2}
-		srcs = []int{0, 1, 2, 3, 4, 5, 6, 7, 8, 9}
-	}
 	var out []c09fCase
-	for _, al := range allows {
-		for _, s := range srcs {
-			for sh, shape := range c09fShapes {
-				if shape.Thorough && !thorough {
-					continue
+	for wi := range c09fWorlds {
+		wd := &c09fWorlds[wi]
+		allows := []int{0, 1}
+		var srcs []int
+		if thorough {
+			allows = []int{0, 1, 2}
+			for i := range wd.Peers {
+				srcs = append(srcs, i)
+			}
+		} else {
+			// one source of each kind
+			seen := map[int]bool{}
+			for i, p := range wd.Peers {
+				if !seen[p.Kind] && p.Kind != c09fKEBGPReplace {
+					seen[p.Kind] = true
+					srcs = append(srcs, i)
 				}
-				k := c09fPeers[s].Kind
-				if k == c09fKIBGP || k == c09fKClient {
-					for orig := 0; orig < 3; orig++ {
-						for cl := 0; cl < 3; cl++ {
-							out = append(out, c09fCase{al, s, sh, orig, cl})
+			}
+		}
+		for _, al := range allows {
+			for _, s := range srcs {
+				for sh, shape := range wd.Shapes {
+					if shape.Thorough && !thorough {
+						continue
+					}
+					k := wd.Peers[s].Kind
+					rr := [][2]int{{0, 0}}
+					if k == c09fKIBGP || k == c09fKClient {
+						rr = nil
+						for orig := 0; orig < 3; orig++ {
+							for cl := 0; cl < 3; cl++ {
+								if wd.Confed && !thorough && orig+cl != 0 && !(orig == 1 && cl == 0) && !(orig == 0 && cl == 2) {
+									continue // quick tier, confederation world: only the two loop indications on their own
+								}
+								rr = append(rr, [2]int{orig, cl})
+							}
 						}
 					}
-				} else {
-					out = append(out, c09fCase{Allow: al, Src: s, Shape: sh})
+					for _, x := range rr {
+						c := c09fCase{World: wi, Allow: al, Src: s, Shape: sh, Orig: x[0], CL: x[1]}
+						if c.valid() {
+							out = append(out, c)
+						}
+					}
 				}
 			}
 		}
@@ -705,9 +880,10 @@ func c09fCases(thorough bool) []c09fCase {
 func TestVerif_C09_Filter(t *testing.T) {
 	r := vr.Start(t, "C09", "filter")
 	defer r.Finish()
-	r.Rule = "one fresh daemon (synctest bubble, 9 established peers: e1 e2 eBGP, e3 eBGP+replace-peer-as, i1 i2 iBGP non-client, c1 c2 RR client, s1 s2 RS client) per case; " +
-		"case = allow-own-as x source x AS_PATH shape (x ORIGINATOR_ID x CLUSTER_LIST for iBGP sources); the route is announced by a real UPDATE (API for the local source); every one of the 9 peers is a target. " +
-		"Non-trivial = distinct case whose route reached handleUpdate/the API and for which import and per-target export decisions were compared with the rule table"
+	r.Rule = "one fresh daemon (synctest bubble, every peer ESTABLISHED through the real FSM) per case; plain world: e1 e2 eBGP, e3 eBGP+replace-peer-as, i1 i2 iBGP non-client, c1 c2 RR client, s1 s2 RS client; " +
+		"confederation world (member-AS 65000 of confederation 100): e1 e2 eBGP, m1 m2 other member-ASes, i1 iBGP non-client, c1 RR client; " +
+		"case = world x allow-own-as x source x AS_PATH shape (x ORIGINATOR_ID x CLUSTER_LIST for iBGP sources); the route is announced by a real UPDATE (API for the local source); every peer of the world is a target. " +
+		"Non-trivial = distinct case whose route reached handleUpdate/the API and for which the import decision and every per-target export decision were compared with the rule table"
 	r.Assumptions = append(r.Assumptions, "bots decode what the daemon writes with the gobgp codec (validated by C04)")
 	if r.ReplayPath() != "" {
 		var c c09fCase
@@ -719,31 +895,36 @@ func TestVerif_C09_Filter(t *testing.T) {
 		return
 	}
 	cases := c09fCases(vr.Thorough())
-	nshape := 0
-	for _, s := range c09fShapes {
-		if !s.Thorough || vr.Thorough() {
-			nshape++
+	for _, wd := range c09fWorlds {
+		var names, shapes []string
+		for _, p := range wd.Peers[1:] {
+			names = append(names, fmt.Sprintf("%s(%s,AS%d)", p.Name, c09fKindNames[p.Kind], p.AS))
 		}
+		for _, s := range wd.Shapes {
+			if !s.Thorough || vr.Thorough() {
+				shapes = append(shapes, s.Name)
+			}
+		}
+		r.Bounds["world_"+wd.Name+"_peers"] = strings.Join(names, " ")
+		r.Bounds["world_"+wd.Name+"_aspath_shapes"] = strings.Join(shapes, " ")
 	}
-	r.Bounds["peers"] = "e1 e2 e3(replace-peer-as) i1 i2 c1 c2 s1 s2; server AS 65000, router-id 10.0.0.254, cluster-id 10.9.9.9"
-	r.Bounds["aspath_shapes"] = nshape
+	r.Bounds["server"] = "AS 65000, router-id 10.0.0.254, cluster-id 10.9.9.9; confederation world: identifier 100, members 65100 65101"
 	r.Bounds["cases"] = len(cases)
-	r.Bounds["targets_per_case"] = len(c09fPeers) - 1
 	if vr.Thorough() {
 		r.Bounds["allow_own_as"] = []int{0, 1, 2}
 		r.Bounds["sources"] = "local and every peer"
 	} else {
 		r.Bounds["allow_own_as"] = []int{0, 1}
-		r.Bounds["sources"] = "local e1 i1 c1 s1"
+		r.Bounds["sources"] = "local and one peer of each kind"
 	}
 	r.Bounds["originator_id"] = "absent / local router-id / other (iBGP sources)"
-	r.Bounds["cluster_list"] = "absent / without / with the local cluster-id (iBGP sources)"
+	r.Bounds["cluster_list"] = "absent / without / with the local cluster-id (iBGP sources; confederation world quick tier: the two loop indications on their own)"
 	for i, c := range cases {
 		r.Eval()
 		o := c09fRun(t, c)
 		c09fJudge(r, c, o)
 		if i%97 == 5 {
-			r.Sample(map[string]any{"case": c, "in_loc_rib": o.InLocRib, "adj_rib_in": o.AdjIn, "filterpath": o.Direct})
+			r.Sample(map[string]any{"case": c, "text": c.String(), "in_loc_rib": o.InLocRib, "adj_rib_in": o.AdjIn, "filterpath": o.Direct})
 		}
 	}
 }
